@@ -1,8 +1,14 @@
 use std::sync::Arc;
 
 use log::debug;
+#[cfg(not(cached_verif))]
 use parking_lot::RwLock;
+#[cfg(cached_verif)]
+use crate::verif_rt::sync::parking_lot::RwLock;
+#[cfg(not(cached_verif))]
 use rand::{Rng, thread_rng};
+#[cfg(cached_verif)]
+use crate::verif_rt::sync::rand::{Rng, thread_rng};
 
 use crate::cache::buffer_event::{BufferConsumer, BufferEvent};
 use crate::cache::types::KeyHash;
